@@ -854,6 +854,11 @@ def diagonal(a, offset=0, axis1=0, axis2=1):
     """
     from .core import COO
 
+    axis1 = normalize_axis(axis1, a.ndim)
+    axis2 = normalize_axis(axis2, a.ndim)
+    if axis1 == axis2:
+        raise ValueError("axis1 and axis2 cannot be the same")
+
     if a.shape[axis1] != a.shape[axis2]:
         raise ValueError("a.shape[axis1] != a.shape[axis2]")
 
